@@ -174,6 +174,33 @@ def programs(rng, tier):
             if rng.random() < 0.5:
                 fa = fb = rng.randrange(nv)
         progs.append(family(a, b, partial_table(rng, rng.choice(CONNS)), fa, fb, fo, maxlim=min(40, len(a) * len(b) + 4)))
+    # product-like blow-up: two symmetric functions over INTERLEAVED disjoint supports (exactly-k / at-least-k of the even resp.
+    # odd variables): the conjunction / disjunction has about |a|*|b|/k nodes, far more than both operands together; limits in the
+    # whole window from below |a|+|b| up to beyond the result size (sampled when the window is long)
+    for _ in range(8 if tier == "quick" else 120):
+        half = rng.choice([3, 4, 5, 6]) if tier == "quick" else rng.choice([3, 4, 5, 6, 8, 10])
+        nv = 2 * half
+        ka, kb = rng.randint(1, half - 1), rng.randint(1, half - 1)
+        exact = rng.random() < 0.6
+        sym = lambda vs, k: bdd_from_fn(nv, vs, lambda a, vs=vs, k=k: (sum(a[x] for x in vs) == k) if exact else (sum(a[x] for x in vs) >= k))
+        a, b = sym(list(range(0, nv, 2)), ka), sym(list(range(1, nv, 2)), kb)
+        conn = rng.choice([(False, False, False, True), (False, True, True, True), (False, True, True, False), (True, False, False, True)])
+        t = partial_table(rng, conn)
+        ta, tb = raw_tt(a), raw_tt(b)
+        n = len(bdd_from_tt(nv, list(range(nv)), [conn[2 * int(x) + int(y)] for x, y in zip(ta, tb)])) if nv <= 12 else None
+        lo = len(a) + len(b) - 2
+        hi = (n if n is not None else 40 * (len(a) + len(b))) + 2
+        window = list(range(max(0, lo), hi + 1))
+        if len(window) > 60:
+            window = sorted(set(rng.sample(window, 50) + [lo, 2 * (len(a) + len(b)), 2 * (len(a) + len(b)) + 1, hi - 3, hi - 2, hi - 1, hi]))
+        prog = [["a", "id", bdd_sx(a)], ["b", "id", bdd_sx(b)], ["full", "fbin", t, "N", "N", "N", "$a", "$b"],
+                ["dinf", "dry", "100000000", t, "N", "N", "N", "$a", "$b"]]
+        for lim in window:
+            if rng.random() < 0.7:
+                prog.append(["l%d" % lim, "fbinlim", str(lim), t, "N", "N", "N", "$a", "$b"])
+            else:
+                prog.append(["l%d" % lim, "binlim", str(lim), t, "$a", "$b"])
+        progs.append(prog)
     # limits that do not fit 32 bits (the result is small: every such limit must answer Some / the count)
     for _ in range(12 if tier == "quick" else 300):
         nv = rng.choice([2, 3, 4, 5])
@@ -233,6 +260,22 @@ def cmp_implies_programs(rng, tier):
         P.add(["cmp_implies", bdd_sx(a), bdd_sx(b)])
         P.add(["cmp_implies", bdd_sx(b), bdd_sx(a)])
         P.add(["cmp_implies", bdd_sx(const(v1)), bdd_sx(nc_constant(nv, v2))])
+    # many variables, a STRICT inclusion whose two sides have the same number of models as doubles (the difference is far below
+    # one ulp of 2^(n-1)): a literal against the literal plus one far-away cube; also the reverse order and the equal pair
+    for _ in range(12 if tier == "quick" else 300):
+        nv = rng.choice([60, 64, 80, 120, 300, 1000])
+        ncube = rng.choice([56, 58, 70, nv - 1])
+        cube_vars = sorted(rng.sample(range(1, nv), min(ncube, nv - 1)))
+        a = [(nv, 0, 0), (nv, 1, 1), (0, 0, 1)]                       # x0
+        b = [(nv, 0, 0), (nv, 1, 1)]                                   # x0 or (not x0 and all cube_vars): a chain below x0's low edge
+        cur = 1
+        for v in reversed(cube_vars):
+            b.append((v, 0, cur))
+            cur = len(b) - 1
+        b.append((0, cur, 1))
+        assert is_canonical(b)[0]
+        for p, q in ((a, b), (b, a), (b, b)):
+            P.add(["cmp_implies", bdd_sx(p), bdd_sx(q)])
     # cmp_implies on medium-sized, structurally different but comparable operands
     for _ in range(150 if tier == "quick" else 4000):
         nv = rng.choice([5, 6, 7, 8, 9])
@@ -366,12 +409,8 @@ def judge(st, V):
         a, b = bdd_nodes(call[1]), bdd_nodes(call[2])
         if a[0][0] != b[0][0]:
             want = "N"
-        elif a[0][0] > 12:
-            want = model
         else:
-            ta, tb = raw_tt(a), raw_tt(b)
-            le = all((not x) or y for x, y in zip(ta, tb))
-            ge = all((not y) or x for x, y in zip(ta, tb))
+            le, ge = raw_implies(a, b), raw_implies(b, a)      # memoised product walk over the raw arrays: any variable count
             want = ["S", "EQ"] if le and ge else ["S", "LT"] if le else ["S", "GT"] if ge else "N"
         machinery_guard(st)
         if impl != want or impl != model:
